@@ -660,13 +660,15 @@ class Gen:
         self.loop_env.clear()
         return [["assign", a, [idx], rhs, loops]]
 
-    def op_array_whole(self):
+    def op_array_whole(self, force_k=None):
         arrs = self.names_of("arr")
         if not arrs or not (self.p["whole_array_ops"] or self.p["matmul_only"]):
             return []
         src = self.choice(arrs)
         n = self.defined[src][1]
         k = self.choice(["expr", "expr", "alias", "transpose", "matmul"])
+        if force_k:
+            k = force_k
         if self.p["matmul_only"] and not self.p["whole_array_ops"]:
             k = self.choice(["transpose", "matmul"])
         cands = [x for x in self.ARR_TEMPS if x not in self.types or self.types[x] == ["arr", n]]
@@ -716,19 +718,31 @@ class Gen:
             self.features.add("matmul")
             c_ = self.bcall("<builtin>transpose", [V(src), C(cols)])
             return pre + [["call", [name], c_[1], c_[2], c_[3]]] + self.observe_array(name, n)
-        # matmul: a is (ra x ca), b is (ca x cb)
-        same = [a for a in arrs if self.defined[a][1] == n]
-        other = self.choice(same)
-        sq = [c for c in (1, 2) if c * c == n]
-        if not sq:
+        # matmul: a is (ra x ca), b is (ca x cb); all shapes incl. inner (1xn . nx1), outer and matrix-vector
+        combos = []
+        for other in arrs:
+            nb = self.defined[other][1]
+            for ca in range(1, n + 1):
+                if n % ca or nb % ca:
+                    continue
+                ra, cb = n // ca, nb // ca
+                if ra * cb <= 6:
+                    combos.append((other, ca, cb, ra * cb))
+        if not combos:
             return []
-        c = sq[0]
-        if name in (src, other) and False:
+        nonsquare = [c for c in combos if not (c[1] * c[1] == n and c[2] == c[1])]
+        other, ca, cb, nres = self.choice(nonsquare) if nonsquare and self.chance(60) else self.choice(combos)
+        cands = [x for x in self.ARR_TEMPS if x not in self.types or self.types[x] == ["arr", nres]]
+        if not cands:
             return []
-        self.define(name, ["arr", n])
+        name = self.choice(cands)
+        self.define(name, ["arr", nres])
+        self.lbound1.discard(name)
         self.features.add("matmul")
-        c_ = self.bcall("<builtin>matmul", [V(src), V(other), C(c), C(c)])
-        return [["call", [name], c_[1], c_[2], c_[3]]] + self.observe_array(name, n)
+        if (ca, cb) != (n // ca, ca) or ca * ca != n:
+            self.features.add("matmul_rect")
+        c_ = self.bcall("<builtin>matmul", [V(src), V(other), C(ca), C(cb)])
+        return [["call", [name], c_[1], c_[2], c_[3]]] + self.observe_array(name, nres)
 
     def observe_array(self, name, n):
         """Make an element of a freshly computed array observable: add it to a persistent real
@@ -1091,6 +1105,8 @@ class Gen:
                 new = self.op_array_write() if self.p["arrays"] else []
             elif k == "arrwhole":
                 new = self.op_array_whole() if self.p["arrays"] else []
+            elif k in ("transpose", "matmul"):
+                new = self.op_array_whole(force_k=k) if self.p["arrays"] and self.p["matmul"] else []
             elif k == "call":
                 new = self.op_call_stmt()
             elif k == "yield":
